@@ -423,7 +423,12 @@ class Check:
             ("Require Import Verif.Base.Atomics Verif.WM.TSO Verif.WM.Litmus.\n" if machine == "TSO" else
              "Require Import Verif.Base.Atomics Verif.WM.RA Verif.WM.RALitmus.\n") + imports + "\n"
             "Eval vm_compute in (%s).\nEval vm_compute in (witness (%s) (%s)).\n" % (safe_expr, progs_expr, bad_expr))
+        mods = set(re.findall(r"Verif\.([\w.]+)", imports))
+        mods |= {"WM.TSO", "WM.Litmus"} if machine == "TSO" else {"WM.RA", "WM.RALitmus"}
+        targets = [m.rstrip(".").replace(".", "/") + ".vo" for m in mods]
         with Lock("coq"):
+            self.coq_project()
+            sh(["make", "-k", "-j%d" % NPROC] + targets, cwd=COQ, timeout=900)   # models of the litmus, fresh Gen
             rc, out, err = sh(["coqc", "-Q", COQ, "Verif", src], cwd=d, timeout=300)
         if rc != 0:
             self.broke("proof", "wm-litmus " + name, (out + err)[-1500:])
